@@ -40,24 +40,41 @@ class Counting:
         drv._sequence = gen()
 
 
-def canned(drv, sent):
+def canned(drv, sent, state):
+    """replies: every request is answered; fragmented reads (0x52) are continued with status 6 for
+    three follow-ups; multi-service packets get a well-formed reply; state["lose"] makes the next
+    receive fail like a lost reply (CommError from the transport wrapper)."""
+    from pycomm3.exceptions import CommError
+
     def _send(msg):
         sent.append(bytes(msg))
 
     def _receive():
+        if state.get("lose"):
+            state["lose"] -= 1
+            raise CommError("socket connection broken")
         f = sent[-1]
         if f[0:2] == b"\x70\x00":
             seq = struct.unpack_from("<H", f, 44)[0]
             svc = f[46]
+            mr = f[46:]
             if svc == 0x0A:   # multi-service: a well-formed reply, every embedded service refused (0x05)
-                mr = f[46:]
                 base = 2 + 2 * mr[1]
                 n = struct.unpack_from("<H", mr, base)[0]
                 offs = struct.unpack_from("<%dH" % n, mr, base + 2)
                 reps = [bytes([mr[base + o] | 0x80, 0, 0x05, 0]) for o in offs]
                 data = struct.pack("<H", n) + b"".join(struct.pack("<H", 2 + 2 * n + 4 * i) for i in range(n)) + b"".join(reps)
                 return c04.unit_reply(0x0A, 0x1E, data, seq)
-            return c04.unit_reply(svc, 0x05 if svc in (0x4C, 0x52, 0x4D, 0x53, 0x4E) else 0, b"", seq)
+            if svc == 0x52:   # read tag fragmented: 100 bytes per fragment, "more" for the first three
+                off = struct.unpack_from("<I", mr, 2 + 2 * mr[1] + 2)[0]
+                return c04.unit_reply(0x52, 6 if off < 300 else 0, b"\xc2\x00" + bytes(100), seq)
+            if svc == 0x4B:   # PCCC execute (SLC): requestor id echoed, CMD|0x40, STS 0, TNS, two data bytes
+                body = mr[2 + 2 * mr[1]:]
+                rid = body[:body[0]] if body else b"\x07" + bytes(6)
+                rest = body[len(rid):]
+                tns = rest[2:4] if len(rest) >= 4 else b"\x00\x00"
+                return c04.unit_reply(0x4B, 0, rid + bytes([0x4F, 0]) + tns + b"\x01\x00", seq)
+            return c04.unit_reply(svc, 0x05 if svc in (0x4C, 0x4D, 0x53, 0x4E) else 0, b"", seq)
         return b"\x6f\x00" + struct.pack("<H", 20) + struct.pack("<I", 1) + bytes(16) + bytes(4) + b"\x00\x00" + struct.pack("<H", 2) + bytes(4) + struct.pack("<HH", 0xB2, 4) + bytes([f[40] | 0x80 if len(f) > 40 else 0x80, 0, 0, 0])
     drv._send, drv._receive = _send, _receive
 
@@ -94,7 +111,8 @@ def run_history(R, mp, kind, ops, pre, rng, label):
         drv = SLCDriver("10.0.0.1")
         drv._target_is_connected, drv._connection_opened, drv._session, drv._target_cid = True, True, 1, b"\x01\x02\x03\x04"
     sent = []
-    canned(drv, sent)
+    state = {}
+    canned(drv, sent, state)
     cnt = Counting(drv)
     advance(drv, pre)
     idx = []
@@ -117,6 +135,22 @@ def run_history(R, mp, kind, ops, pre, rng, label):
                 drv.write(*[("a_DINT.%d" % (i % 32), 1) for i in range(op[1])])
             elif op[0] == "writebig":
                 drv.write(("%s{%d}" % (arrs[0], op[1]), [1] * op[1]))
+            elif op[0] == "gmlost":      # the reply to this message is lost (transport error on receive), then the caller retries
+                state["lose"] = 1
+                try:
+                    drv.generic_message(service=0x4B, class_code=0x300, instance=1, request_data=b"r", connected=True)
+                except Exception as e:
+                    R.count("op_exception", type(e).__name__)
+                drv.generic_message(service=0x4B, class_code=0x300, instance=1, request_data=b"r", connected=True)
+            elif op[0] == "readlost":
+                state["lose"] = 1
+                try:
+                    drv.read(rng.choice(small))
+                except Exception as e:
+                    R.count("op_exception", type(e).__name__)
+                drv.read(rng.choice(small))
+            elif op[0] == "slcdatalog":
+                drv.get_datalog_queue(op[1], 1)
             elif op[0] == "slcread":
                 drv.read("N7:%d" % op[1])
             elif op[0] == "slcwrite":
@@ -193,11 +227,11 @@ def run(R, escalate=False):
     R.count("generator_draws_compared", total if ok else done)
     # (b) histories
     ops_pool = {
-        "cip": [("gm", 0), ("gm", 1), ("gm", 7), ("gmu",)],
+        "cip": [("gm", 0), ("gm", 1), ("gm", 7), ("gmu",), ("gmlost",)],
         "logix": [("gm", 3), ("read", 1), ("read", 2), ("read", 5), ("read", 40), ("readbig", 600, 0), ("readbig", 4100, 2), ("write", 1), ("write", 3),
-                  ("writebit", 1), ("writebit", 4), ("writebig", 600), ("writebig", 4100), ("gmu",)],
+                  ("writebit", 1), ("writebit", 4), ("writebig", 600), ("writebig", 4100), ("gmu",), ("gmlost",), ("readlost",)],
         "micro800": [("read", 1), ("read", 3), ("write", 1), ("write", 2), ("readbig", 700, 1), ("writebig", 700)],
-        "slc": [("slcread", 0), ("slcread", 5), ("slcwrite", 1)],
+        "slc": [("slcread", 0), ("slcread", 5), ("slcwrite", 1), ("slcdatalog", 1), ("slcdatalog", 3)],
     }
     n_hist = 200 if thorough else 70
     for h in range(n_hist):
